@@ -22,6 +22,9 @@
 (***************************************************************************)
 EXTENDS Naturals, Integers, Sequences, FiniteSets, SequencesExt, TLC
 
+CONSTANT KeepCsum      \* TRUE: pinned behaviour, a file that redo takes for the user's (hand-edited target, static source) keeps the
+                       \* checksum recorded for the content redo once produced
+
 None    == -1          \* SQL NULL for run ids and stamps
 Missing == 0           \* Stamp::MISSING
 ALWAYS  == "//ALWAYS"
@@ -78,11 +81,15 @@ SetFailed(r, new, rid) ==
     LET r1 == UpdateStamp(r, new, rid) IN
     [r1 EXCEPT !.failed = rid, !.gen = (r1.stamp # Missing)]
 
+\* (repaired: the recorded checksum describes what redo produced, not what the user put there: it is forgotten, so that a
+\* later regeneration with the old content counts as a change for everything that was built from the user's version)
+ForgetCsum(r) == IF KeepCsum THEN r ELSE [r EXCEPT !.csum = NoVal]
+
 SetStatic(r, new, rid) ==
-    [UpdateStamp(r, new, rid) EXCEPT !.failed = None, !.ovr = FALSE, !.gen = FALSE]
+    ForgetCsum([UpdateStamp(r, new, rid) EXCEPT !.failed = None, !.ovr = FALSE, !.gen = FALSE])
 
 SetOverride(r, new, rid) ==
-    [UpdateStamp(r, new, rid) EXCEPT !.failed = None, !.ovr = TRUE]
+    ForgetCsum([UpdateStamp(r, new, rid) EXCEPT !.failed = None, !.ovr = TRUE])
 
 IsCheckedRow(r, rid) == r.checked # None /\ r.checked # 0 /\ r.checked >= rid
 IsChangedRow(r, rid) == r.changed # None /\ r.changed # 0 /\ r.changed >= rid
